@@ -40,6 +40,27 @@ func exprShape(e influxql.Expr, depth int) string {
 	return "_"
 }
 
+// isSignOnRightOfLevel5: `x OP -y` with OP one of * / % &, where -y was desugared to (-1 * y) or (1 * y).
+func isSignOnRightOfLevel5(e influxql.Expr) bool {
+	b, ok := e.(*influxql.BinaryExpr)
+	if !ok || b.Op.Precedence() != 5 {
+		return false
+	}
+	r, ok := b.RHS.(*influxql.BinaryExpr)
+	if !ok || r.Op != influxql.MUL {
+		return false
+	}
+	i, ok := r.LHS.(*influxql.IntegerLiteral)
+	if !ok || (i.Val != 1 && i.Val != -1) {
+		return false
+	}
+	switch r.RHS.(type) {
+	case *influxql.VarRef, *influxql.Call, *influxql.ParenExpr:
+		return true
+	}
+	return false
+}
+
 // minimalFailingExpr finds the deepest sub-expression whose own String() does not re-parse to itself.
 func minimalFailingExpr(n influxql.Node) influxql.Expr {
 	var best influxql.Expr
@@ -90,17 +111,16 @@ func minimalFailingExpr(n influxql.Node) influxql.Expr {
 			walk(v.Expr)
 		case *influxql.Dimension:
 			walk(v.Expr)
-		}
-	})
-	if best == nil {
-		// conditions hang off statements directly
-		v := reflect.ValueOf(n)
-		if v.Kind() == reflect.Ptr && v.Elem().Kind() == reflect.Struct {
-			if f := v.Elem().FieldByName("Condition"); f.IsValid() && !f.IsNil() {
-				walk(f.Interface().(influxql.Expr))
+		default:
+			// conditions hang off statements (of any kind, at any nesting level) directly
+			rv := reflect.ValueOf(x)
+			if rv.Kind() == reflect.Ptr && !rv.IsNil() && rv.Elem().Kind() == reflect.Struct {
+				if f := rv.Elem().FieldByName("Condition"); f.IsValid() && f.Kind() == reflect.Interface && !f.IsNil() {
+					walk(f.Interface().(influxql.Expr))
+				}
 			}
 		}
-	}
+	})
 	return best
 }
 
@@ -127,7 +147,11 @@ func c02roundTrip(stmt influxql.Statement, text, form string, cs interface{}, ra
 	}
 	// locate the cause
 	if e := minimalFailingExpr(stmt); e != nil {
-		return []ev.Finding{{Sig: "reprint-expr:" + exprShape(e, 2), Witness: text,
+		shape := exprShape(e, 2)
+		if isSignOnRightOfLevel5(e) {
+			shape = "level5-operator-with-desugared-unary-sign-as-right-operand"
+		}
+		return []ev.Finding{{Sig: "reprint-expr:" + shape, Witness: text,
 			Detail: fmt.Sprintf("the sub-expression that prints as %q does not re-parse to itself; statement prints as %q", e.String(), printed), Case: cs, Rank: rank}}
 	}
 	if err != nil {
